@@ -52,6 +52,11 @@ func (c *Cluster) injected(verb string, kind ...string) error {
 	if c.FailCode == 409 && verb == "create" && !(len(kind) > 0 && kind[0] == "Namespace") {
 		return &apierrors.StatusError{ErrStatus: metav1.Status{Status: metav1.StatusFailure, Code: 409, Reason: metav1.StatusReasonAlreadyExists, Message: msg}}
 	}
+	// 4091 = 409 Conflict, for DELETE only: what a delete gets whose UID precondition no longer holds (the object was replaced
+	// by another client).  Other verbs get a 500 (kubectl retries a PATCH that is answered Conflict).
+	if c.FailCode == 4091 && verb == "delete" {
+		return &apierrors.StatusError{ErrStatus: metav1.Status{Status: metav1.StatusFailure, Code: 409, Reason: metav1.StatusReasonConflict, Message: msg}}
+	}
 	switch c.FailCode {
 	case 403:
 		return &apierrors.StatusError{ErrStatus: metav1.Status{Status: metav1.StatusFailure, Code: 403, Reason: metav1.StatusReasonForbidden, Message: msg}}
